@@ -59,8 +59,14 @@ def execute(c):
         zn = xr.DataArray(zones, dims=("y", "x"), attrs={"nodata": ZND})
         if c["api"] == "accessor_dask":
             da = da.chunk({"time": 1})
-        r = da.hdc.zonal.mean(zn, list(range(c["nz"])), dtype="float32" if c["bits"] == 24 else "float64")
+        zone_ids = list(range(c["nz"])) if c["tid"] % 2 else np.arange(c["nz"])
+        dimn = "zones" if c["tid"] % 3 else "region"
+        r = da.hdc.zonal.mean(zn, zone_ids, dtype="float32" if c["bits"] == 24 else "float64", dim_name=dimn, name=("zm" if c["tid"] % 4 == 0 else None))
         res = np.asarray(r)
+        meta_ok = (tuple(r.dims) == ("time", dimn, "stat") and list(np.asarray(r[dimn]).tolist()) == list(range(c["nz"])) and list(r["stat"].values) == ["mean", "valid"]
+                   and r.attrs.get("nodata") == ND and bool((r["time"].values == da["time"].values).all()))
+        if not meta_ok:
+            res = np.full_like(res, -12345.0)
         if str(r.dtype) != ("float32" if c["bits"] == 24 else "float64"):
             res = np.full_like(res, -12345.0)
     c["res"] = [[[core.rat(res[t, z, 0]), core.rat(res[t, z, 1])] for z in range(c["nz"])] for t in range(res.shape[0])]
